@@ -4,7 +4,7 @@ from gen_util import *
 import pyref
 
 MODULES = ["WowSrp.Props.C16", "WowSrp.Props.Source.C16", "WowSrp.Props.Source.Structural.C16", "WowSrp.Props.Source.LoopsPin", "WowSrp.Props.Source.Shape.C16"]
-THEOREMS = ["C16_constants", "C16_spec_digits", "C16_digits", "C16_digits_zero", "C16_layout_spec", "C16_layout_perm", "C16_spec_layout", "C16_layout_mod", "C16_hash", "C16_none_iff", "C16_verify_iff", "C16_source_layout", "C16_source_no_hidden_state", "C16_source_structural_impls", "C16_translated_pin_to_bytes", "C16_translated_remap_pin_grid", "C16_source_shapes"]
+THEOREMS = ["C16_constants", "C16_spec_digits", "C16_digits", "C16_digits_zero", "C16_layout_spec", "C16_layout_perm", "C16_spec_layout", "C16_layout_mod", "C16_hash", "C16_none_iff", "C16_verify_iff", "C16_source_layout", "C16_source_no_hidden_state", "C16_source_structural_impls", "C16_translated_pin_to_bytes", "C16_translated_remap_pin_grid", "C16_source_shapes", "C16_translated_signatures"]
 RULE = ("PINs of every digit count 0..10 (incl. 0, 999, 1000, 9999, u32::MAX), grid seeds incl. 0, 10!-1, 10!, u32::MAX and seeds congruent mod 10!, random "
         "salts; hash compared with an independent SHA1(cs | SHA1(ss | remapped ASCII digits)) over the Lehmer-code layout; verify with the right hash and "
         "with each of its 160 single-bit changes; seed sweeps with the 10-digit PIN 1023456789 (exposes the whole layout), digest on both sides "
